@@ -961,6 +961,12 @@ func (st *c28State) msgOracle(m *c28Msg, where string, s *c28Schema, o c28Opts) 
 			}
 			cls = "enumvalue-sibling-enumvalue"
 		}
+		if cls == "field-field" && c28IsListKeyMember(m, d) {
+			// <List>Key { <key fields>; <List> <list name> = n; }: the generator appends "_key" to a
+			// key whose sanitised name equals that of the list, so a clash between a key and the
+			// member field is never the documented sibling-name weakness
+			cls = "listkey-member"
+		}
 		st.sum.finding(Finding{Signature: "symbol-collision/" + cls, What: fmt.Sprintf("message %s declares the name %q more than once (%s)", fq, d, cls), Input: st.input(s, o)})
 	}
 	byNum := map[int64][]c28Field{}
@@ -994,6 +1000,25 @@ func (st *c28State) msgOracle(m *c28Msg, where string, s *c28Schema, o c28Opts) 
 	for _, n := range m.Nested {
 		st.msgOracle(n, fq, s, o)
 	}
+}
+
+// c28IsListKeyMember reports whether m is a generated list-key message (named <X>Key, with a
+// single field of message type <X> that holds the list entry) and sym is the name of that field.
+func c28IsListKeyMember(m *c28Msg, sym string) bool {
+	if !strings.HasSuffix(m.Name, "Key") {
+		return false
+	}
+	want := strings.TrimSuffix(m.Name, "Key")
+	for _, f := range m.Fields {
+		t := f.Type
+		if i := strings.LastIndex(t, "."); i >= 0 {
+			t = t[i+1:]
+		}
+		if t == want && f.Name == sym && !f.Repeated {
+			return true
+		}
+	}
+	return false
 }
 
 func c28CountFields(m *c28Msg) int {
@@ -1172,7 +1197,11 @@ func (st *c28State) process(s *c28Schema, o c28Opts) *c28Run {
 	for _, pkg := range pkgs {
 		if e, bad := run.ParseEr[pkg]; bad {
 			st.sum.count("parse", "failed")
-			st.sum.finding(Finding{Signature: "proto-parse", What: fmt.Sprintf("generated file %s is not in the proto3 subset: %s", run.Paths[pkg], e), Input: st.input(s, o), Observed: c28Excerpt(run.Texts[pkg], e)})
+			psig := "proto-parse/other"
+			if strings.Contains(c28Excerpt(run.Texts[pkg], e), "(yext.yang_name)") {
+				psig = "proto-parse/enum-name-literal"
+			}
+			st.sum.finding(Finding{Signature: psig, What: fmt.Sprintf("generated file %s is not in the proto3 subset: %s", run.Paths[pkg], e), Input: st.input(s, o), Observed: c28Excerpt(run.Texts[pkg], e)})
 			continue
 		}
 		st.sum.count("parse", "ok")
@@ -1697,6 +1726,23 @@ func (g *c28Gen) children(depth int, used map[string]bool) []*c28Y {
 	return out
 }
 
+// c28SanitiseVariant swaps one of '-', '_', '.' in name for another of them ("" change when
+// the name has none).
+func c28SanitiseVariant(rng *rand.Rand, name string) string {
+	var pos []int
+	for i := 1; i < len(name)-1; i++ {
+		if name[i] == '-' || name[i] == '_' || name[i] == '.' {
+			pos = append(pos, i)
+		}
+	}
+	if len(pos) == 0 {
+		return name
+	}
+	i := pos[rng.Intn(len(pos))]
+	alts := strings.Replace("-_.", string(name[i]), "", 1)
+	return name[:i] + string(alts[rng.Intn(2)]) + name[i+1:]
+}
+
 func (g *c28Gen) list(depth int, used map[string]bool, group []string) *c28Y {
 	l := &c28Y{Kind: "list", Name: g.fresh(used, group), Ordered: g.rng.Intn(6) == 0}
 	lu := map[string]bool{}
@@ -1713,6 +1759,11 @@ func (g *c28Gen) list(depth int, used map[string]bool, group []string) *c28Y {
 			// a key named like its list
 			k = &c28Y{Kind: "leaf", Name: l.Name, Type: g.leafType(true, true)}
 			lu[l.Name] = true
+		} else if v := c28SanitiseVariant(g.rng, l.Name); i == 0 && v != l.Name && g.rng.Intn(6) == 0 {
+			// a key whose name differs from that of its list only in characters that
+			// protogen rewrites to '_'
+			k = &c28Y{Kind: "leaf", Name: v, Type: g.leafType(true, true)}
+			lu[v] = true
 		} else {
 			k = g.leaf(lu, group, true)
 		}
